@@ -92,6 +92,10 @@ def elem_to_value(ex, term, kind):
     if isinstance(kind, tuple) and kind[0] == 'tup':
         sort, mk, projs = tuple_parts(kind)
         return tuple(elem_to_value(ex, z3.simplify(p(term)), k) for p, k in zip(projs, kind[1]))
+    from .values import ext_kind
+
+    if ext_kind(kind) is not None:
+        return ext_kind(kind).to_value(ex, term, kind)
     if isinstance(kind, tuple) and kind[0] == 'rec':
         return ElemRef(rec_heap(ex, kind[1]), mk_int(term))
     return Sym(z3.simplify(term), kind)
@@ -534,6 +538,16 @@ def seq_get(ex, seq, i):
     idx = norm_index(ex, i, n)
     if seq.k == 'bytes':
         return read_byte(ex, seq.t, idx)
+    t = seq.t
+    if ex.quant and z3.is_app(t) and t.decl().kind() == z3.Z3_OP_SEQ_CONCAT and t.num_args() == 2:
+        last = t.arg(1)
+        if z3.is_app(last) and last.decl().kind() == z3.Z3_OP_SEQ_UNIT:
+            # (init ++ [x])[i] inside a quantifier body (the shape list.append produces): written as the case
+            # distinction i < len(init) ? init[i] : x, which the solvers instantiate directly (equal for every index
+            # in range; the engine's reads are in range or guarded)
+            it = idx if isinstance(idx, z3.ExprRef) else zint(idx)
+            init = t.arg(0)
+            return elem_to_value(ex, z3.If(it < z3.Length(init), init[it], last.arg(0)), seq.k[1])
     if isinstance(seq.k[1], tuple) and seq.k[1][0] == 'rec' and not ex.quant:
         # valid fact of the theory of sequences (hint for membership-quantified invariants, see forall_in)
         ex.add_def(z3.Implies(z3.And(idx >= 0, idx < z3.Length(seq.t)), z3.Contains(seq.t, z3.Unit(seq.t[idx]))))
@@ -907,6 +921,12 @@ def elem_detach(ex, er):
 
 def compare(ex, op, a, b):
     a, b = plain(a), plain(b)
+    for x in (a, b):
+        if isinstance(x, Sym):
+            from .values import ext_kind
+
+            if ext_kind(x.k) is not None:
+                return ext_kind(x.k).compare(ex, op, a, b)
     if isinstance(a, Unknown) or isinstance(b, Unknown):
         if isinstance(op, (ast.Is, ast.IsNot)) and (a is None or b is None):
             pass
